@@ -12,21 +12,25 @@ PROVED = ['[P] sign_rule: m mod 4 in {2,3} <-> m(m-1)/2 odd',
           '[P] discriminant_const: a non-zero constant gives 0 (as coded; outside the property)',
           '[P] discriminant_linear: degree 1 gives 1, flag true, no panic, either mode',
           '[P] discriminant_no_outoffuel: supplied fuel suffices for all inputs',
-          '[C] discriminant_flag_no_panic_partial: canonical non-zero f, flag true => a value is returned',
-          '[C] discriminant_partial: value d with flag true => d * lc f = (-1)^(n(n-1)/2) * r, r the value of resultant f f\' (flag true)',
-          '[C] discriminant_det_partial: deg f >= 1, flag true => d * lc f = (-1)^(n(n-1)/2) * det Sylvester(f, f\') (MathComp), i.e. d is the discriminant of the property text',
-          '[C] discriminant_eq0_partial: under the flag, d = 0 iff f and f\' have a common factor of positive degree (repeated factor), via MathComp resultant_eq0']
-NOT_PROVED = ['exactness flag always true (C04: sub-resultant structure theorem; and lc f | Res(f, f\')): observed on every explored input; the formula is re-checked by the Bareiss oracle on every case',
-              'invariance under x -> x + c and x -> -x, disc(fg) = disc f disc g Res(f,g)^2: metamorphic oracles only']
+          '[P] discriminant_flag_true: for every canonical input (length fits a usize) every truncating division of the run is exact (sub-resultant structure theorem of C04 + resultant_deriv_lead: lc f divides det Sylvester(f, f\'))',
+          '[P] discriminant_total: canonical non-zero input => a value is returned (no panic), either mode',
+          '[P] discriminant_spec: deg f >= 1 => the value d satisfies d * lc f = (-1)^(n(n-1)/2) * det Sylvester(f, f\') (MathComp), i.e. d is the discriminant of the property text; no flag hypothesis',
+          '[P] discriminant_eq0: d = 0 iff f and f\' have a common factor of positive degree (repeated factor), via MathComp resultant_eq0; no flag hypothesis',
+          '[P] resultant_affine: Res(A(ax+b), B(ax+b)) = a^(deg A deg B) Res(A, B) over any integral domain, a <> 0 (Sylvester determinants; through the Euclid recursion over the fraction field)',
+          '[P] discriminant_affine_model / discriminant_shift / discriminant_negx: for canonical lists f, g with Poly g = Poly f o (a X + b), a <> 0, deg f >= 1: discriminant g = a^(n(n-1)) discriminant f; in particular unchanged under x -> x + c and x -> -x',
+          '[P] resultant_roots (product formula over algebraically closed fields: Res(a prod (X - alpha_i), B) = a^deg B prod B(alpha_i), via the Euclid recurrence), resultant_mull_Z / resultant_mulr_Z: multiplicativity of the resultant over Z[x] (through Z -> algC)',
+          '[P] discriminant_mul_model: for canonical lists f, g, fg of degree >= 1 with Poly fg = Poly f * Poly g: discriminant fg = discriminant f * discriminant g * (resultant f g)^2 on the values returned by the model',
+          '[C] discriminant_flag_no_panic_partial, discriminant_partial, discriminant_det_partial, discriminant_eq0_partial: the first-wave conditional forms (kept; now subsumed)']
+NOT_PROVED = ['the closed form lc(f)^(2n-2) * product of squared root differences is not stated for the model (the product formula resultant_roots is proved at spec level only)']
 PROFILES = ('debug', 'release')
 
 TIMEOUT = 3600          # per service process; the extracted model computes with Coq's binary integers (slow on 64-bit coefficients)
 
 CLAIM = dict(
-    technique='Coq proofs about the Gallina model of discriminant (sign rule, degree 0/1 cases, termination; under the exactness flag: no panic and d * lc f = (-1)^(n(n-1)/2) det Sylvester(f,f\')) + extracted-model-vs-implementation correspondence + Sylvester/Bareiss oracle and metamorphic relations on every case',
-    text='For all inputs: the sign rule, the zero/constant/linear cases, fuel sufficiency, no panic and d * lc f = (-1)^(n(n-1)/2) det Sylvester(f, f\') whenever the exactness flag is true ([C]). '
-         'The equality with the determinant formula and the invariance/multiplicativity identities are checked by independent oracles on every generated case, not proved.',
-    note='Conditional on the exactness flag (C04: structure theorem not proved); flag observed true on every explored input.',
+    technique='Coq proofs about the Gallina model of discriminant (sign rule, degree 0/1 cases, termination, exactness of every division via the sub-resultant structure theorem of C04 and lc f | det Sylvester(f,f\'), d * lc f = (-1)^(n(n-1)/2) det Sylvester(f,f\')) + extracted-model-vs-implementation correspondence + Sylvester/Bareiss oracle and metamorphic relations on every case',
+    text='For all canonical inputs of degree >= 1 (length fits a usize), both modes: discriminant returns d with d * lc f = (-1)^(n(n-1)/2) det Sylvester(f, f\') (discriminant_spec), all divisions exact, no panic, d = 0 iff f has a repeated factor, d unchanged under x -> x + c and x -> -x (discriminant_shift, discriminant_negx; the transformed polynomial is given as a second canonical list related by MathComp composition); disc(fg) = disc f disc g Res(f,g)^2 (discriminant_mul_model); plus the sign rule and the zero/constant/linear cases. '
+         'All identities are additionally checked by independent oracles on every generated case.',
+    note='Unconditional since the second wave (exactness flag proved always true).',
     ref='DESIGN.md section 4, C05')
 
 def o_disc(f):
